@@ -368,7 +368,7 @@ func adminCreateTopic(s *Sim, name string, parts int32, internal bool) bool {
 	req.TimeoutMillis = 5000
 	c := s.Raw("envadmin")
 	defer c.Close()
-	resp, err := c.Do(0, req)
+	resp, err := c.DoController(req)
 	if err != nil {
 		return false
 	}
@@ -389,7 +389,7 @@ func adminAddPartitions(s *Sim, name string, total int32) bool {
 	req.TimeoutMillis = 5000
 	c := s.Raw("envadmin")
 	defer c.Close()
-	resp, err := c.Do(0, req)
+	resp, err := c.DoController(req)
 	if err != nil {
 		return false
 	}
@@ -410,15 +410,24 @@ func adminDeleteTopic(s *Sim, name string) bool {
 	req.TimeoutMillis = 5000
 	c := s.Raw("envadmin")
 	defer c.Close()
-	_, err := c.Do(0, req)
-	return err == nil
+	resp, err := c.DoController(req)
+	if err != nil {
+		return false
+	}
+	for _, t := range resp.(*kmsg.DeleteTopicsResponse).Topics {
+		if t.ErrorCode != 0 {
+			return false
+		}
+	}
+	return true
 }
 
 type topicState struct {
-	parts     int32
-	deleted   bool
-	internal  bool
-	recreated bool // deleted and created again under the same name
+	parts      int32
+	deleted    bool
+	internal   bool
+	recreated  bool   // deleted and created again under the same name
+	deletedSeq uint64 // event number at which the deletion was acknowledged
 }
 
 func scenConsume(s *Sim) {
@@ -449,6 +458,12 @@ func scenConsume(s *Sim) {
 	}
 
 	// environment events
+	recreateDone := map[string]chan struct{}{}
+	for _, ev := range p.Events {
+		if ev.Kind == "recreate_after_purge" {
+			recreateDone[ev.S] = make(chan struct{})
+		}
+	}
 	for _, ev := range p.Events {
 		ev := ev
 		s.At(time.Duration(ev.AtMs)*time.Millisecond, func() {
@@ -474,6 +489,10 @@ func scenConsume(s *Sim) {
 				// cursor.topicID); the clause is about a topic created
 				// after the client let go of the old one, so the harness
 				// waits for that before it creates it again.
+				defer close(recreateDone[ev.S])
+				// a metadata response from before the deletion can still be
+				// on its way to the client (at most one request time-out)
+				time.Sleep(time.Duration(p.Knob("req_overhead_ms", 2000)+1000) * time.Millisecond)
 				var cl *kgo.Client
 				gone := s.WaitFor(90*time.Second, 200*time.Millisecond, func() bool {
 					if cl == nil {
@@ -518,6 +537,7 @@ func scenConsume(s *Sim) {
 					tmu.Lock()
 					if ts := tstate[ev.S]; ts != nil {
 						ts.deleted = true
+						ts.deletedSeq = s.Seq()
 					}
 					tmu.Unlock()
 					s.Count("env.delete_topic", 1)
@@ -617,6 +637,14 @@ func scenConsume(s *Sim) {
 	// let open transactions time out if the plan wants it
 	if d := p.Knob("after_heal_wait_ms", 0); d > 0 {
 		time.Sleep(time.Duration(d) * time.Millisecond)
+	}
+
+	// a topic that is to come back has come back (or was given up on)
+	for _, ch := range recreateDone {
+		select {
+		case <-ch:
+		case <-time.After(3 * time.Minute):
+		}
 	}
 
 	// ground truth
@@ -820,6 +848,17 @@ func (o *consOracle) missing(consumers []string, describe bool) string {
 	return ""
 }
 
+// purgedBefore: every purge of the topic by this consumer returned before
+// the given event.
+func (o *consOracle) purgedBefore(c, t string, seq uint64) bool {
+	for _, ev := range o.st.selEv[c] {
+		if ev.kind == "purge" && ev.t == t && ev.seq >= seq {
+			return false
+		}
+	}
+	return true
+}
+
 func (o *consOracle) recreated(t string) bool {
 	ts := o.tstate[t]
 	return ts != nil && ts.recreated
@@ -957,8 +996,9 @@ func (o *consOracle) judge(consumers []string) {
 				if !o.selectedAt(c, r.topic, r.part, r.retSeq) {
 					purgedRegexStillExists := false
 					if selMode == 1 {
-						if ts := o.tstate[r.topic]; ts != nil && !ts.deleted && reSel.MatchString(r.topic) && !reExcl.MatchString(r.topic) {
+						if ts := o.tstate[r.topic]; ts != nil && (!ts.deleted || o.purgedBefore(c, r.topic, ts.deletedSeq)) && reSel.MatchString(r.topic) && !reExcl.MatchString(r.topic) {
 							// documented: a purged topic that still exists is rediscovered by a regex consumer
+							// (also one that existed for a while after the purge and was deleted later)
 							purgedRegexStillExists = true
 						}
 					}
